@@ -101,6 +101,14 @@ func (r *Reconnector) attemptReconnect(addr string) {
 		return
 	}
 
+	// A timer that fired concurrently with Pause must not start an attempt:
+	// keep the state for Resume but leave it without a pending timer.
+	if r.paused {
+		state.timer = nil
+		r.mu.Unlock()
+		return
+	}
+
 	state.attempts++
 	state.lastAttempt = time.Now()
 
@@ -125,6 +133,12 @@ func (r *Reconnector) attemptReconnect(addr string) {
 	if err != nil {
 		// Reschedule if still within limits
 		if r.cfg.MaxAttempts == 0 || state.attempts < r.cfg.MaxAttempts {
+			// Paused while the attempt was in flight: do not re-arm, the
+			// state is preserved and Schedule re-arms it after Resume.
+			if r.paused {
+				state.timer = nil
+				return
+			}
 			delay := r.addJitter(state.nextDelay)
 			state.timer = time.AfterFunc(delay, func() {
 				r.attemptReconnect(addr)
